@@ -4,7 +4,7 @@ verified by them against the project's tests) is applied to a scratch copy; ever
 usage: tools/refactor_suite.py [names...]   -> selftest/refactor_results.json"""
 import os, sys, json, subprocess, shutil, glob, re
 V = os.path.dirname(os.path.dirname(os.path.abspath(__file__)))
-S = "/tmp/tv-refsuite"
+S = f"/tmp/tv-refsuite-{os.getpid()}"
 names = sys.argv[1:]
 diffs = sorted(glob.glob(os.path.join(V, "selftest", "refactors", "*.diff")))
 if names:
@@ -41,8 +41,12 @@ for d in diffs:
     print(name, "QUIET" if not alarms else "FALSE-ALARM " + json.dumps(alarms)[:600])
 shutil.rmtree(S, ignore_errors=True)
 out = os.path.join(V, "selftest", "refactor_results.json")
-old = json.load(open(out)) if os.path.exists(out) and names else {}
-old.update(res)
-json.dump(old, open(out, "w"), indent=1)
+import fcntl
+with open(out + ".lock", "w") as lk:
+    # several shards (disjoint name lists) may finish at the same time
+    fcntl.flock(lk, fcntl.LOCK_EX)
+    old = json.load(open(out)) if os.path.exists(out) and names else {}
+    old.update(res)
+    json.dump(old, open(out, "w"), indent=1)
 bad = [k for k, v in res.items() if v.get("false_alarms") or v.get("error")]
 print(f"refactor suite: {len(res) - len(bad)}/{len(res)} quiet; noisy: {bad}")
